@@ -62,6 +62,7 @@ type step struct {
 	Uc     string `json:"uc,omitempty"` // used class relative to the instance's current quota: zero|half|full|over
 	Lc     string `json:"lc,omitempty"` // level class: honest|zero|over
 	Op     string `json:"op,omitempty"` // el: setself|setother|stopbegin|cbstart|cbstop
+	Type   string `json:"type,omitempty"` // limit: new schema type
 }
 
 type scenario struct {
@@ -388,6 +389,9 @@ func (w *world) doStep(st step) {
 		w.add(e)
 	case "limit":
 		u := w.ups[st.Up]
+		if st.Type != "" { // the schema changes its TYPE (max-in-flight <-> token bucket) with the new limit
+			u.Type = st.Type
+		}
 		u.Max = st.Max
 		if st.Burst > 0 {
 			u.Burst = st.Burst
